@@ -8,7 +8,7 @@ MANIFEST = dict(
     design='4/C10')
 
 RULE = 'reports for live/dead sessions and known/unknown URRs, counters at 0 / 2^32 / 2^63 / 2^64-1 / random, every single-cause trigger, all method / MNOP combinations, 1-3 reports per batch'
-GEN = dict(weights=dict(usa=30, est=16, mod=18, dele=6, asr=6, srr=6, dld=2), big_seids=False)
+GEN = dict(usage_share=0.6, weights=dict(usa=30, est=16, mod=18, dele=6, asr=6, srr=6, dld=2), big_seids=False)
 N_QUICK, N_THOROUGH = 110, 3000
 
 
